@@ -1,4 +1,5 @@
 """C06 — the OpenAPI document for version v lists exactly what is served at v."""
+import json
 import re
 
 from .lib import PLUMBING, callee_allow, closure_args_of_call, lit_strs, operand_local, switches_on_value
@@ -1249,7 +1250,43 @@ def r7_order_independent(ctx):
     ctx.check(R, "document-maps-insertion-ordered", all(t.startswith("indexmap::IndexMap<") for t in doc.values()), "document maps: %s" % {k: v.split("<")[0] for k, v in doc.items()}, None)
 
 
-RULES = [("C06.R1", r1_same_filter), ("C06.R2", r2_unpublished), ("C06.R3", r3_placement), ("C06.R4", r4_refs_resolve), ("C06.R4b", r4b_dependencies_transitive),
+def r8_path_templates_are_openapi_templates(ctx):
+    """Added after adversary change C06-G: the endpoint iterator yielded PathSegment::VarnameWildcard for wildcard edges, so a published
+    `/docs/{sections:.*}` was documented under `/docs/{sections:.*}` - not an OpenAPI path template, and no longer the name of its
+    declared path parameter."""
+    from .lib import lit_strs
+    R = ctx.rule("C06.R8", "every operation is documented under an OpenAPI path template: the endpoint iterator renders a variable segment as `{name}` - it yields no "
+                 "VarnameWildcard segment, or renders that kind without the `:.*` pattern", floor=2)
+    ds = ctx.ds
+    its = [f for f in ds.F.values() if re.search(r"^<*router::HttpRouterIter", f.id)]
+    ctx.check(R, "iterator-functions", len(its) >= 3, "functions of HttpRouterIter examined: %d" % len(its), None, nontrivial=False)
+    wild = []
+    kinds = set()
+    for f in its:
+        for g in [f] + ds.descendants(f):
+            for bb, i, st in g.aggregates(r"^router::PathSegment$"):
+                if bb in g.reachable(0):
+                    kinds.add(st["rv"].get("variant"))
+                    if st["rv"].get("variant") == "VarnameWildcard":
+                        wild.append((g, bb))
+    pf = ds.one(r"^router::HttpRouterIter::<'a, Context>::path$")
+    renders_pattern = False
+    if pf is not None:
+        for g in [pf] + ds.descendants(pf):
+            for b in g.blocks:
+                for st in b["st"]:
+                    if st["s"] == "assign":
+                        txt = json.dumps(st["rv"])
+                        if ":.*" in txt or "58, 46, 42" in txt:
+                            renders_pattern = True
+    ctx.check(R, "segments-yielded", bool(kinds) and "VarnameSegment" in kinds, "segment kinds the iterator builds: %s" % sorted(k for k in kinds if k), its[0] if its else None, nontrivial=False)
+    ok = not wild or not renders_pattern
+    ctx.check(R, "no-regex-in-documented-template", ok,
+              "the iterator builds VarnameWildcard segments at %d site(s) and path() renders that kind with `:.*`: %s - a wildcard route would be documented under a template that is not OpenAPI's `{name}`" % (len(wild), renders_pattern),
+              wild[0] if wild else pf)
+
+
+RULES = [("C06.R8", r8_path_templates_are_openapi_templates), ("C06.R1", r1_same_filter), ("C06.R2", r2_unpublished), ("C06.R3", r3_placement), ("C06.R4", r4_refs_resolve), ("C06.R4b", r4b_dependencies_transitive),
          ("C06.R5", r5_determinism), ("C06.R6", r6_idempotent), ("C06.R7", r7_order_independent)]
 
 AD = "dropshot/src/api_description.rs"
@@ -1375,3 +1412,4 @@ SELFTEST = [
          "let fabricated = openapiv3::ReferenceOr::<openapiv3::Response>::Reference { reference: format!(\"#/components/responses/{}\", type_name) };\n                    let reference = &fabricated;"))],
      "expect": ["C06.R4"], "why": "the 4xx/5xx $ref is formatted from the Rust type name instead of being the stored entry's reference: it can name a response that is not in components.responses"},
 ]
+LEVEL_TEXT += " Also (R8): operations are documented under OpenAPI path templates: the endpoint iterator never renders a variable with its `:.*` pattern."
